@@ -246,6 +246,9 @@ func (s *Stream) Multicastable() Multicastable {
 
 // Hlsable 返回支持hls能力，不支持返回nil
 func (s *Stream) Hlsable() Hlsable {
+	if s.hlsPlaylist == nil { // 没有 HLS 的流：返回 nil 接口，而不是包含 nil 指针的接口
+		return nil
+	}
 	return s.hlsPlaylist
 }
 
